@@ -35,7 +35,7 @@ COMPONENTS = {
              "xlsxwriter (in_memory forced by the seam)", "zipfile"],
     "stub": ["XLSX peer (encoder)", "SimFS/SimRaw"],
 }
-PROBES_REQUIRED = ["fractional-second", "date-system-1904", "other-date-system-read-first", "kind:s", "kind:ss", "kind:n-int", "kind:n-float", "kind:b", "kind:d", "kind:t", "kind:date", "gap",
+PROBES_REQUIRED = ["hidden-sheet-in-front-of-the-requested-one", "write_row-and-write_rows-mixed", "fractional-second", "date-system-1904", "other-date-system-read-first", "kind:s", "kind:ss", "kind:n-int", "kind:n-float", "kind:b", "kind:d", "kind:t", "kind:date", "gap",
                    "sheet:2", "sheet:3", "missing-sheet", "via:reader", "via:direct", "writer-round-trip", "write_rows",
                    "ragged-rows", "big-integer"]
 EPOCHS = {False: datetime.datetime(1899, 12, 30), True: datetime.datetime(1904, 1, 1)}
@@ -98,8 +98,17 @@ def generate(seed, tier):
     if swarm.random() < 0.25:
         alphabet = swarm.choice([["a", "b", ""], ["a b", " a", "x\ty", "l1\nl2", ""], ["<&>", "ü€", "=1+1", "'q"], ["1", "2.50", "TRUE"]])
         table = [[rng.choice(alphabet) for _ in range(rng.randint(1, 5))] for _ in range(rng.randint(0, 5))]
+        # how the rows reach the writer: one by one, as one batch, or as any mix of single rows and batches
+        batches = None
+        style = swarm.choice(["row", "rows", "mixed", "mixed"])
+        if style == "mixed":
+            batches, remaining = [], len(table)
+            while remaining:
+                size = rng.randint(1, min(3, remaining))
+                batches.append([size, "row" if size == 1 and rng.random() < 0.7 else "rows"])
+                remaining -= size
         return {"io": simfs.IoConfig.draw(swarm), "producer": "writer", "table": table,
-                "use_write_rows": swarm.random() < 0.5}
+                "use_write_rows": style == "rows", "batches": batches}
     sheets = []
     for _ in range(swarm.randint(1, 3)):
         sheets.append([[draw_cell(rng) for _ in range(rng.randint(0, 5))] for _ in range(rng.randint(0, 5))])
@@ -114,7 +123,9 @@ def generate(seed, tier):
                         row[index] = ["date", "2000-02-29 00:00:00"]
     return {"io": simfs.IoConfig.draw(swarm), "producer": "peer", "sheets": sheets, "sheet": sheet,
             "via": swarm.choice(["direct", "reader"]), "stored": swarm.random() < 0.3, "date1904": date1904,
-            "other_date_system_first": swarm.random() < 0.3}
+            "other_date_system_first": swarm.random() < 0.3,
+            # sheets the user interface does not show are sheets all the same: sheet k counts every sheet
+            "hidden": [[index, swarm.choice(["hidden", "veryHidden"])] for index in range(len(sheets)) if swarm.random() < 0.2]}
 
 
 def expected_text(cell):
@@ -143,7 +154,18 @@ def execute(scenario):
         with simfs.Seams(fs):
             def write():
                 writer = rowio.XlsxRowWriter("out.xlsx")
-                if scenario.get("use_write_rows"):
+                if scenario.get("batches"):
+                    position = 0
+                    for size, how in scenario["batches"]:
+                        batch = [list(row) for row in table[position:position + size]]
+                        position += size
+                        if how == "row" and len(batch) == 1:
+                            writer.write_row(batch[0])
+                        elif batch:
+                            writer.write_rows(batch)
+                    for row in table[position:]:
+                        writer.write_row(list(row))
+                elif scenario.get("use_write_rows"):
                     writer.write_rows([list(row) for row in table])
                 else:
                     for row in table:
@@ -163,8 +185,10 @@ def execute(scenario):
         result.probe("writer-round-trip")
         if scenario.get("use_write_rows"):
             result.probe("write_rows")
+        if scenario.get("batches") and len({how for _, how in scenario["batches"]}) > 1:
+            result.probe("write_row-and-write_rows-mixed")
         result.nontrivial = any(cell for row in table for cell in row)
-        result.schedule_sig = ["writer", scenario.get("use_write_rows"), [len(row) for row in table]]
+        result.schedule_sig = ["writer", scenario.get("use_write_rows"), scenario.get("batches"), [len(row) for row in table]]
         result.ticks = history.ticks + fs.ticks
         result.digest = history.digest()
         result.trace = {"written": table, "read": value if status == "ok" else lib.error_summary(value)}
@@ -178,8 +202,11 @@ def execute(scenario):
     sheet = scenario["sheet"]
     date1904 = bool(scenario.get("date1904"))
     data = xlsx.encode([[[peer_cell(cell, date1904) for cell in row] for row in table] for table in sheets],
-                       stored=scenario.get("stored", False), date1904=date1904)
+                       stored=scenario.get("stored", False), date1904=date1904,
+                       hidden={index: state for index, state in scenario.get("hidden") or []})
     fs.store("book.xlsx", data)
+    if any(index < sheet - 1 for index, _ in scenario.get("hidden") or []):
+        result.probe("hidden-sheet-in-front-of-the-requested-one")
     if scenario.get("other_date_system_first"):
         # a workbook using the other date system but the very same serial numbers is read first in this process
         other = xlsx.encode([[[peer_cell(cell, date1904) for cell in row] for row in table] for table in sheets],
@@ -278,6 +305,11 @@ def execute(scenario):
 
 def candidates(scenario):
     if scenario["producer"] == "writer":
+        if scenario.get("batches"):
+            yield lib.with_value(scenario, ["batches"], None)
+            for candidate in lib.drop_candidates(scenario, ["batches"]):
+                yield candidate
+            return
         for candidate in lib.drop_candidates(scenario, ["table"]):
             yield candidate
         for row_index, row in enumerate(scenario["table"]):
@@ -310,6 +342,8 @@ def candidates(scenario):
         yield lib.with_value(scenario, ["other_date_system_first"], False)
     if scenario.get("date1904"):
         yield lib.with_value(scenario, ["date1904"], False)
+    for candidate in lib.drop_candidates(scenario, ["hidden"]) if scenario.get("hidden") else []:
+        yield candidate
     for candidate in lib.io_candidates(scenario):
         yield candidate
     for sheet_index, table in enumerate(sheets):
